@@ -440,6 +440,16 @@ class _Canonical(ast.NodeTransformer):
 
     def visit_Compare(self, node):
         self.generic_visit(node)
+        # q.qsize() > 0 / != 0 / >= 1  ->  not q.empty();   q.qsize() == 0 / < 1 / <= 0  ->  q.empty()   (queue.Queue: the same statement
+        # about the same moment, both "approximate" in the same way under concurrency)
+        if len(node.ops) == 1 and isinstance(node.left, ast.Call) and isinstance(node.left.func, ast.Attribute) and node.left.func.attr == "qsize" and not node.left.args \
+                and isinstance(node.comparators[0], ast.Constant) and type(node.comparators[0].value) is int:
+            k_, op_ = node.comparators[0].value, node.ops[0]
+            nonempty = (isinstance(op_, ast.Gt) and k_ == 0) or (isinstance(op_, ast.NotEq) and k_ == 0) or (isinstance(op_, ast.GtE) and k_ == 1)
+            isempty = (isinstance(op_, ast.Eq) and k_ == 0) or (isinstance(op_, ast.Lt) and k_ == 1) or (isinstance(op_, ast.LtE) and k_ == 0)
+            if nonempty or isempty:
+                call = ast.Call(func=ast.Attribute(value=node.left.func.value, attr="empty", ctx=ast.Load()), args=[], keywords=[])
+                return ast.copy_location(call if isempty else ast.UnaryOp(op=ast.Not(), operand=call), node)
         # (a, b) == (c, d)  ->  a == c and b == d   (and != -> or) for operands that are names, attributes or literals
         if len(node.ops) == 1 and isinstance(node.ops[0], (ast.Eq, ast.NotEq)) and isinstance(node.left, ast.Tuple) and isinstance(node.comparators[0], ast.Tuple) \
                 and len(node.left.elts) == len(node.comparators[0].elts) >= 1 \
